@@ -38,6 +38,7 @@ def Slot.setCopied (sl : Slot) (v : Bool) : Slot := { sl with copied := v }
 def Slot.setBefore (sl : Slot) (v : Int) : Slot := { sl with before := v }
 def Slot.setAfter (sl : Slot) (v : Int) : Slot := { sl with after := v }
 def Slot.setOriginal (sl : Slot) (v : Int) : Slot := { sl with original := v }
+def Slot.setGid (sl : Slot) (v : Nat) : Slot := { sl with gid := v }
 
 structure Seg where
   slots : Array Slot := #[]        -- the arena; a slot's identity is its index
@@ -176,6 +177,8 @@ structure Ctx where
   is : Option Nat                  -- the `is` register
   status : Status := .finished
   growthFactor : Nat := 64
+  classes : Array (List Nat) := #[]   -- the linear (output) classes of the Silf class map
+  gattr : Array (Array Int) := #[]    -- glyph attributes: `gattr[gid][attr]`
   deriving Repr
 
 inductive Outcome where
@@ -386,6 +389,37 @@ def opAttrSet (c : Ctx) (slat : Nat) (subindex : Nat) (value : Int) : Outcome :=
   match c.is with
   | none => .fault "attr_set: `is` is null"
   | some i => if slat = 2 then .cont (setAttTo c i subindex value) else .cont c
+
+/-- `Silf::getClassGlyph(cid, index)` for linear classes -/
+def classGlyph (c : Ctx) (cid index : Nat) : Nat :=
+  match c.classes[cid]? with
+  | some l => l.getD index 0
+  | none => 0
+
+/-- `Silf::findClassIndex(cid, gid)` for linear classes (`0xFFFF` when absent) -/
+def classIndex (c : Ctx) (cid gid : Nat) : Nat :=
+  match c.classes[cid]? with
+  | some l => (match l.idxOf? gid with | some i => i | none => 65535)
+  | none => 65535
+
+/-- `put_glyph <class>`: `is->setGlyph(seg.getClassGlyph(output_class, 0))` -/
+def opPutGlyph (c : Ctx) (cls : Nat) : Outcome :=
+  match c.is with
+  | some i => .cont (c.withSeg (c.seg.upd i fun sl => sl.setGid (classGlyph c cls 0)))
+  | none => .fault "put_glyph: `is` is null"
+
+/-- `put_subs <slot_ref> <input class> <output class>` -/
+def opPutSubs (c : Ctx) (ref : Int) (icls ocls : Nat) : Outcome :=
+  let rc := slotat c ref
+  match rc.1 with
+  | some sl =>
+    (match rc.2.is with
+     | some i => .cont (rc.2.withSeg (rc.2.seg.upd i fun s => s.setGid (classGlyph rc.2 ocls (classIndex rc.2 icls (rc.2.seg.get sl).gid))))
+     | none => .fault "put_subs: `is` is null")
+  | none => .cont rc.2
+
+/-- `Segment::glyphAttr(gid, attr)`: 0 outside the table -/
+def glyphAttr (c : Ctx) (gid attr : Nat) : Int := ((c.gattr[gid]?).bind (·[attr]?)).getD 0
 
 /-- `temp_copy` -/
 def opTempCopy (c : Ctx) : Outcome :=
